@@ -57,10 +57,19 @@ func (e *Exec) setupEntry() {
 		}
 		e.regs[p] = v
 		e.params = append(e.params, v)
+		if e.root.paramSyms == nil {
+			e.root.paramSyms = map[string]bool{}
+		}
 		if t, ok := v.(*Term); ok {
 			e.root.inputs = append(e.root.inputs, t)
+			if t.Op == "sym" {
+				e.root.paramSyms[t.Name] = true
+			}
 		} else if ptr, ok := v.(*Ptr); ok {
 			e.root.inputs = append(e.root.inputs, ptr.Ref)
+			if ptr.Ref.Op == "sym" {
+				e.root.paramSyms[ptr.Ref.Name] = true
+			}
 		}
 	}
 	for _, fv := range fn.FreeVars {
